@@ -125,6 +125,29 @@ func register(ns ...*niInst) {
 func childMain(spec string) int {
 	childSeed, _ = strconv.ParseInt(os.Getenv("VERIF_C08_SEED"), 10, 64)
 	parts := strings.Split(spec, "|")
+	if parts[0] == "ia" {
+		interactiveInsts()
+		ia := iaRegistry[parts[1]]
+		if ia == nil {
+			fmt.Println("C08CHILD:HARNESS:unknown interactive protocol " + parts[1])
+			return 3
+		}
+		m, _ := strconv.Atoi(parts[2])
+		idx, _ := strconv.Atoi(parts[3])
+		acc, st := ia.child(m, idx)
+		switch {
+		case strings.HasPrefix(st, "PANIC@"):
+			fmt.Println("C08CHILD:PANIC:" + oneLine(strings.TrimPrefix(st, "PANIC@")))
+		case strings.HasPrefix(st, "HARNESS"):
+			fmt.Println("C08CHILD:" + st)
+			return 3
+		case acc:
+			fmt.Println("C08CHILD:ACCEPT:")
+		default:
+			fmt.Println("C08CHILD:REJECT:" + oneLine(st))
+		}
+		return 0
+	}
 	buildPlan()
 	if registry[parts[1]] == nil {
 		heavyInsts()
@@ -143,10 +166,10 @@ func childMain(spec string) int {
 			fmt.Println("C08CHILD:HARNESS:bad hex")
 			return 3
 		}
-		verr, pan := safeVerify(n, compiler.Name(parts[2]), verifierCtx().build(), stmtSel{}, proof)
+		verr, site := safeVerify(n, compiler.Name(parts[2]), verifierCtx().build(), stmtSel{}, proof)
 		switch {
-		case pan:
-			fmt.Println("C08CHILD:PANIC:" + oneLine(verr.Error()))
+		case site != "":
+			fmt.Println("C08CHILD:PANIC:" + site + "|" + oneLine(verr.Error()))
 		case verr != nil:
 			fmt.Println("C08CHILD:REJECT:" + oneLine(verr.Error()))
 		default:
@@ -157,8 +180,8 @@ func childMain(spec string) int {
 		idx, _ := strconv.Atoi(parts[3])
 		acc, st := n.zkChild(m, idx)
 		switch {
-		case strings.HasPrefix(st, "PANIC"):
-			fmt.Println("C08CHILD:PANIC:" + oneLine(st))
+		case strings.HasPrefix(st, "PANIC@"):
+			fmt.Println("C08CHILD:PANIC:" + oneLine(strings.TrimPrefix(st, "PANIC@")))
 		case acc:
 			fmt.Println("C08CHILD:ACCEPT:")
 		default:
@@ -181,6 +204,7 @@ func oneLine(s string) string {
 
 type childResult struct {
 	outcome string // ACCEPT | REJECT | PANIC | CRASH
+	site    string // library function that panicked (PANIC, CRASH)
 	detail  string
 }
 
@@ -229,12 +253,17 @@ func runChild(spec string, stdin []byte) childResult {
 		if oc == "HARNESS" {
 			panic(engine.HarnessError{Msg: "child: " + line})
 		}
-		return childResult{oc, strings.TrimPrefix(line[k:], ":")}
+		detail := strings.TrimPrefix(line[k:], ":")
+		if oc == "PANIC" {
+			site, rest, _ := strings.Cut(detail, "|")
+			return childResult{oc, site, rest}
+		}
+		return childResult{oc, "", detail}
 	}
 	// no result line: the process died. Keep the first lines of the Go crash report.
 	if strings.Contains(s, "panic:") || strings.Contains(s, "SIGSEGV") {
 		childCrashes.Add(1)
-		return childResult{"CRASH", crashSummary(s)}
+		return childResult{"CRASH", libSite(s), crashSummary(s)}
 	}
 	panic(engine.HarnessError{Msg: "child process produced no result: " + oneLine(s)})
 }
